@@ -2,3 +2,4 @@ import AdbModel.Basic
 import AdbModel.Cmd
 import AdbModel.Message
 import AdbModel.Store
+import AdbModel.StoreSpec
